@@ -50,31 +50,30 @@ Definition ntop6 (gs : groups) : str := let (s, z) := scan gs 0 0 0 0 in pr gs 0
 Record pst := { part : N; ii : nat; cpos : nat; acc : list N }.
 Inductive res := Fail | Done (s : pst) (rest : str).
 
+Definition is (c : byte) (b : byte) : bool := Byte.eqb c b.
+Definition hd_is (r : str) (b : byte) : bool := match r with c :: _ => Byte.eqb c b | [] => false end.
+
 Fixpoint loop (fuel : nat) (s : pst) (inp : str) : res :=
   match fuel with O => Fail | S f =>
   if Nat.leb 8 (ii s) then Done s inp else
   match inp with
-  | [] => (* default with NUL *)
-      let s' := {| part := part s; ii := S (ii s); cpos := cpos s; acc := acc s ++ [part s] |} in
+  | [] =>
+      let s' := {| part := 0; ii := S (ii s); cpos := cpos s; acc := acc s ++ [part s] |} in
       if Nat.eqb (cpos s) 8 && Nat.ltb (ii s') 8 then Fail else Done s' inp
   | c :: r =>
     match hexval c with
     | Some v => let p := N.lor (N.shiftl (part s) 4) v in
                 if 0xffff <? p then Fail else loop f {| part := p; ii := ii s; cpos := cpos s; acc := acc s |} r
     | None =>
-      if Byte.eqb c colon then
-        match r with
-        | x2e :: _ => Fail
-        | _ =>
+      if is c colon then
+        if hd_is r x2e then Fail else
           let s' := {| part := 0; ii := S (ii s); cpos := cpos s; acc := acc s ++ [part s] |} in
-          match r with
-          | x3a :: _ => if Nat.ltb (cpos s) 8 then Fail
-                        else loop f {| part := 0; ii := ii s'; cpos := ii s'; acc := acc s' |} r
-          | _ => loop f s' r
-          end
-        end
-      else (* default *)
-        let s' := {| part := part s; ii := S (ii s); cpos := cpos s; acc := acc s ++ [part s] |} in
+          if hd_is r colon then
+            if Nat.ltb (cpos s) 8 then Fail
+            else loop f {| part := 0; ii := ii s'; cpos := ii s'; acc := acc s' |} r
+          else loop f s' r
+      else
+        let s' := {| part := 0; ii := S (ii s); cpos := cpos s; acc := acc s ++ [part s] |} in
         if Nat.eqb (cpos s) 8 && Nat.ltb (ii s') 8 then Fail else Done s' inp
     end
   end end.
@@ -85,12 +84,12 @@ Definition finish (s : pst) : groups :=
 
 Definition pton6 (inp : str) : option groups :=
   let start :=
-    match inp with
-    | x3a :: x3a :: x3a :: _ => None
-    | x3a :: x3a :: r => Some ({| part := 0; ii := 0; cpos := 0; acc := [] |}, r)
-    | x3a :: _ => None
-    | _ => Some ({| part := 0; ii := 0; cpos := 8; acc := [] |}, inp)
-    end in
+    if hd_is inp colon then
+      if hd_is (tl inp) colon then
+        if hd_is (tl (tl inp)) colon then None
+        else Some ({| part := 0; ii := 0; cpos := 0; acc := [] |}, tl (tl inp))
+      else None
+    else Some ({| part := 0; ii := 0; cpos := 8; acc := [] |}, inp) in
   match start with None => None | Some (s, r) =>
     match loop (S (length inp)) s r with
     | Done s' [] => Some (finish s')
